@@ -2,10 +2,13 @@ package main
 
 import (
 	"context"
+	"encoding/json"
 	"errors"
 	"fmt"
 	"math/big"
 	"strings"
+	"time"
+	"unicode"
 
 	core "github.com/iden3/go-iden3-core/v2"
 	jsonproc "github.com/iden3/go-schema-processor/v2/json"
@@ -282,6 +285,384 @@ func emitFacade(out *Out, r *Rng) {
 	out.Emit(Case{Op: "none", In: J{"facade": "all 8 component subsets"}, Impl: okJ(8), Prop: propOf(why), Tags: []string{"facade"}, NT: true})
 }
 
+// ---------- several types in the contexts of one credential; type spellings a schema does not define ----------
+
+// c17Respell: another spelling of s - the same string under case folding, another one character by character. Type names
+// and type IRIs are compared character by character (JSON-LD terms and IRIs are), so the respelling names another type.
+func c17Respell(r *Rng, s string) string {
+	rs := []rune(s)
+	var at []int
+	for i, c := range rs {
+		if unicode.ToUpper(c) != unicode.ToLower(c) && c < 128 {
+			at = append(at, i)
+		}
+	}
+	if len(at) == 0 {
+		return s + "x"
+	}
+	k := 1
+	switch r.Intn(4) {
+	case 0:
+		k = len(at) // all letters
+	case 1:
+		k = 1 + r.Intn(len(at))
+	}
+	p := r.Perm(len(at))
+	for _, j := range p[:k] {
+		c := rs[at[j]]
+		if unicode.IsUpper(c) {
+			rs[at[j]] = unicode.ToLower(c)
+		} else {
+			rs[at[j]] = unicode.ToUpper(c)
+		}
+	}
+	return string(rs)
+}
+
+// c17NearMiss: a spelling close to s that is not s (another case, padding, one character more or less, percent-encoding)
+func c17NearMiss(r *Rng, s string) string {
+	for try := 0; try < 8; try++ {
+		var t string
+		switch r.Intn(9) {
+		case 0:
+			t = strings.ToUpper(s)
+		case 1:
+			t = strings.ToLower(s)
+		case 2:
+			t = s + " "
+		case 3:
+			t = " " + s
+		case 4:
+			if len(s) > 1 {
+				t = s[:len(s)-1]
+			}
+		case 5:
+			t = s + r.Pick([]string{"/", "#", "2", "s", "_", "."})
+		case 6:
+			if i := r.Intn(len(s)); s[i] < 128 && s[i] != '%' {
+				t = s[:i] + fmt.Sprintf("%%%02X", s[i]) + s[i+1:]
+			}
+		default:
+			t = c17Respell(r, s)
+		}
+		if t != "" && t != s {
+			return t
+		}
+	}
+	return s + "x"
+}
+
+// c17RandAttr: 1-4 slots, each given another field of the pool, parts in random order
+func c17RandAttr(r *Rng) string {
+	m := 1 + r.Intn(4)
+	ks, fs := r.Perm(4), r.Perm(len(c17Pool))
+	var parts []string
+	for i := 0; i < m; i++ {
+		parts = append(parts, slotKeys[ks[i]]+"="+c17Pool[fs[i]])
+	}
+	return "iden3:v1:" + strings.Join(parts, "&")
+}
+
+// c17Contexts: one context document that defines the types of all the given credentials (each with its own scoped context)
+func c17Contexts(cs ...*ACred) []byte {
+	all := map[string]any{}
+	for _, c := range cs {
+		var d map[string]any
+		if err := json.Unmarshal(c.typeContext(), &d); err != nil {
+			panic(err)
+		}
+		for k, v := range d["@context"].(map[string]any) {
+			if _, dup := all[k]; !dup || k == c.TypeName {
+				all[k] = v
+			}
+		}
+	}
+	bb := bytesBuf()
+	enc := json.NewEncoder(bb)
+	enc.SetEscapeHTML(false)
+	if err := enc.Encode(map[string]any{"@context": all}); err != nil {
+		panic(err)
+	}
+	return []byte(strings.TrimSpace(bb.String()))
+}
+
+// c17CredJSON: the credential document of c with the given list of context URLs
+func c17CredJSON(c *ACred, ctxURLs []string) []byte {
+	var d map[string]any
+	if err := json.Unmarshal(c.JSON(), &d); err != nil {
+		panic(err)
+	}
+	l := make([]any, len(ctxURLs))
+	for i, u := range ctxURLs {
+		l[i] = u
+	}
+	d["@context"] = l
+	b, err := json.Marshal(d)
+	if err != nil {
+		panic(err)
+	}
+	return b
+}
+
+func c17Build(doc []byte, l ld.DocumentLoader) ([]*big.Int, error) {
+	var vc verifiable.W3CCredential
+	if err := json.Unmarshal(doc, &vc); err != nil {
+		panic(err)
+	}
+	o := &verifiable.CoreClaimOptions{RevNonce: 1, MerklizerOpts: []merklize.MerklizeOption{merklize.WithDocumentLoader(l)}}
+	cl, err := guard(10*time.Second, func() (*core.Claim, error) {
+		cl, err := vc.ToCoreClaim(context.Background(), o)
+		if err == nil && cl == nil {
+			return nil, errNilNil
+		}
+		return cl, err
+	})
+	if err != nil {
+		return nil, err
+	}
+	return cl.RawSlotsAsInts(), nil
+}
+
+func c17Lookup(field, tp string, schema []byte) (int, error) {
+	return guard(10*time.Second, func() (int, error) { return jsonproc.Parser{}.GetFieldSlotIndex(field, tp, schema) })
+}
+
+// c17Judge: the property for one lookup and one build of a credential of the same type with the same contexts -
+// index i reported <=> raw slot i holds the field's value encoding; a failed build <=> no index reported
+func c17Judge(what, field string, idx int, gerr error, slots []*big.Int, cerr error, fv string, known bool) []string {
+	var why []string
+	if gerr != nil && idx != -1 {
+		why = append(why, fmt.Sprintf("%s: error together with index %d", what, idx))
+	}
+	if cerr != nil {
+		if gerr == nil {
+			why = append(why, fmt.Sprintf("%s: claim building fails (%v) but slot index %d is reported for %q", what, cerr, idx, field))
+		}
+		return why
+	}
+	if gerr == nil {
+		if idx != 2 && idx != 3 && idx != 6 && idx != 7 {
+			why = append(why, fmt.Sprintf("%s: slot index %d is not one of 2,3,6,7", what, idx))
+		} else if !known || slots[idx].String() != fv {
+			why = append(why, fmt.Sprintf("%s: slot %d reported for %q but the claim's raw slot %d holds %v (field encoding %v)", what, idx, field, idx, slots[idx], fv))
+		}
+	}
+	if known {
+		var holding []int
+		for _, i := range []int{2, 3, 6, 7} {
+			if slots[i].String() == fv {
+				holding = append(holding, i)
+			}
+		}
+		if len(holding) > 0 && gerr != nil {
+			why = append(why, fmt.Sprintf("%s: field %q is in raw slot(s) %v but the lookup reports an error", what, field, holding))
+		}
+		if len(holding) > 1 && gerr == nil {
+			why = append(why, fmt.Sprintf("%s: field %q is in raw slots %v but only slot %d is reported", what, field, holding, idx))
+		}
+	}
+	return why
+}
+
+func uniqStrings(xs []string) []string {
+	seen := map[string]bool{}
+	var out []string
+	for _, x := range xs {
+		if !seen[x] {
+			seen[x] = true
+			out = append(out, x)
+		}
+	}
+	return out
+}
+
+// emitC17Types: a schema is seldom alone. The contexts of one credential may define several types - revisions of a type whose
+// names and IRIs are close to each other (another case of a letter, of the hex digits of a urn:uuid) - each with its own
+// serialization attribute, in one context document or in two. Lookup and claim building must both follow the definition of
+// the type at hand, every time; and a spelling the schema does not define is an unknown type for both.
+func emitC17Types(out *Out, r *Rng, tier string) {
+	c17Rename = ""
+	base := c17Cred(r, c17RandAttr(r))
+	base.SingleContext, base.TypeAlias = false, false
+	k := 2 + r.Intn(2)
+	cs := []*ACred{base}
+	for len(cs) < k {
+		from := cs[r.Intn(len(cs))]
+		s := *from
+		// the IRI differs from a sibling's in case only; the name is a revision's name or differs in case only, too
+		s.TypeIRI = c17Respell(r, from.TypeIRI)
+		if r.Chance(35) {
+			s.TypeName = c17Respell(r, from.TypeName)
+		} else {
+			s.TypeName = base.TypeName + r.Pick([]string{"Legacy", "V2", "2", "_old", "Draft"})
+		}
+		clash := false
+		for _, o := range cs {
+			if o.TypeIRI == s.TypeIRI || o.TypeName == s.TypeName {
+				clash = true
+			}
+		}
+		if clash {
+			continue
+		}
+		for try := 0; try < 20; try++ {
+			s.SerAttr = c17RandAttr(r)
+			same := false
+			for _, o := range cs {
+				same = same || o.SerAttr == s.SerAttr
+			}
+			if !same {
+				break
+			}
+		}
+		if s.SubjectTypeAs == "none" && s.TypeName >= "VerifiableCredential" {
+			// JSON-LD applies type-scoped contexts in the code point order of the type terms: the terms of a type that sorts
+			// after VerifiableCredential do not propagate to a subject that carries no type - such a document defines no
+			// fields at all (not a matter of this property), so here the subject says what it is
+			s.SubjectTypeAs = "string"
+		}
+		s.TopTypes = append([]string{}, from.TopTypes...)
+		for i, t := range s.TopTypes {
+			if t == from.TypeName {
+				s.TopTypes[i] = s.TypeName
+			}
+		}
+		cs = append(cs, &s)
+	}
+	fields := base.modelIn(big.NewInt(0))["fields"].(J)
+	lookups := append(append([]string{}, c17Pool...), "unknownField")
+	builds, relook := 3, 2
+	if tier == "thorough" {
+		builds, relook = 5, 3
+	}
+	// layout: all types in one context document, or every type in a document of its own, all of them listed by the credential
+	twoDocs := r.Chance(35)
+	docs := map[string][]byte{vcCtxURL: []byte(vcCtx)}
+	ctxURLs := []string{vcCtxURL}
+	schemaOf := make([][]byte, len(cs))
+	if twoDocs {
+		for j, c := range cs {
+			u := fmt.Sprintf("%s.rev%d.jsonld", base.TypeURL, j)
+			schemaOf[j] = c.typeContext()
+			docs[u] = schemaOf[j]
+			ctxURLs = append(ctxURLs, u)
+		}
+		p := r.Perm(len(cs))
+		sh := []string{vcCtxURL}
+		for _, j := range p {
+			sh = append(sh, ctxURLs[1+j])
+		}
+		ctxURLs = sh
+	} else {
+		all := c17Contexts(cs...)
+		for j := range cs {
+			schemaOf[j] = all
+		}
+		docs[base.TypeURL] = all
+		ctxURLs = append(ctxURLs, base.TypeURL)
+	}
+	loader := &mapLoader{docs: docs}
+	merklize.SetDocumentLoader(loader)
+	layout := "one-document"
+	if twoDocs {
+		layout = "document-per-type"
+	}
+	var names, iris, attrs []string
+	for _, c := range cs {
+		names, iris, attrs = append(names, c.TypeName), append(iris, c.TypeIRI), append(attrs, c.SerAttr)
+	}
+	for j, c := range cs {
+		doc := c17CredJSON(c, ctxURLs)
+		var why []string
+		type built struct {
+			slots []*big.Int
+			err   error
+		}
+		var bs []built
+		for n := 0; n < builds; n++ {
+			s, err := c17Build(doc, loader)
+			bs = append(bs, built{s, err})
+		}
+		nOK := 0
+		for _, field := range lookups {
+			fv, known := fields[field].(string)
+			for _, byIRI := range []bool{false, true} {
+				tn := c.TypeName
+				if byIRI {
+					tn = c.TypeIRI
+				}
+				for n := 0; n < relook; n++ {
+					idx, gerr := c17Lookup(field, tn, schemaOf[j])
+					if gerr == nil {
+						nOK++
+					}
+					for m, b := range bs {
+						why = append(why, c17Judge(fmt.Sprintf("type %q looked up as %q (lookup #%d, build #%d)", c.TypeName, tn, n, m), field, idx, gerr, b.slots, b.err, fv, known)...)
+					}
+				}
+			}
+		}
+		why = uniqStrings(why)
+		out.Emit(Case{Op: "none", In: J{"types": names, "typeIRIs": iris, "attrs": attrs, "credentialOfType": j, "layout": layout, "schema": string(schemaOf[j]), "credential": string(doc)},
+			Impl: J{"built": bs[0].err == nil, "lookupsOK": nOK}, Prop: propOf(why), Tags: []string{"sibling-types", "layout:" + layout, fmt.Sprintf("types:%d", len(cs))}, NT: true})
+	}
+	// a schema that defines one of the types only: every other spelling - the siblings' names and IRIs, near misses of its own - is
+	// a type unknown to it, for the lookup and for the building of a credential that says it is of that type
+	j := r.Intn(len(cs))
+	own := cs[j]
+	schema := own.typeContext()
+	ownURL := base.TypeURL + ".only.jsonld"
+	loader1 := &mapLoader{docs: map[string][]byte{vcCtxURL: []byte(vcCtx), ownURL: schema}}
+	merklize.SetDocumentLoader(loader1)
+	var unknown []string
+	for i, c := range cs {
+		if i != j {
+			unknown = append(unknown, c.TypeIRI)
+			if c.TypeName != own.TypeName {
+				unknown = append(unknown, c.TypeName)
+			}
+		}
+	}
+	unknown = append(unknown, c17NearMiss(r, own.TypeIRI), c17NearMiss(r, own.TypeName), c17NearMiss(r, r.Pick([]string{own.TypeIRI, own.TypeName})))
+	for _, u := range uniqStrings(unknown) {
+		if u == own.TypeIRI || u == own.TypeName {
+			continue
+		}
+		var why []string
+		nOK := 0
+		for _, field := range lookups {
+			idx, gerr := c17Lookup(field, u, schema)
+			if gerr == nil {
+				nOK++
+				why = append(why, fmt.Sprintf("slot index %d reported for field %q of type %q, which the schema does not define (it defines %q = %q)", idx, field, u, own.TypeName, own.TypeIRI))
+			} else if idx != -1 {
+				why = append(why, fmt.Sprintf("error together with index %d", idx))
+			}
+		}
+		// a credential that says it is of the type spelled u, with this schema as its context
+		cu := *own
+		cu.TypeName = u
+		cu.TopTypes = append([]string{}, own.TopTypes...)
+		for i, t := range cu.TopTypes {
+			if t == own.TypeName {
+				cu.TopTypes[i] = u
+			}
+		}
+		doc := c17CredJSON(&cu, []string{vcCtxURL, ownURL})
+		slots, cerr := c17Build(doc, loader1)
+		if cerr == nil {
+			// built after all (nothing of it depends on the type): then no designated field may be in a slot the lookup denies
+			for _, field := range c17Pool {
+				fv, known := fields[field].(string)
+				idx, gerr := c17Lookup(field, u, schema)
+				why = append(why, c17Judge(fmt.Sprintf("type %q unknown to the schema", u), field, idx, gerr, slots, nil, fv, known)...)
+			}
+		}
+		out.Emit(Case{Op: "none", In: J{"defined": J{"name": own.TypeName, "iri": own.TypeIRI, "attr": own.SerAttr}, "lookedUpAs": u, "schema": string(schema), "credential": string(doc)},
+			Impl: J{"built": cerr == nil, "lookupsOK": nOK}, Prop: propOf(uniqStrings(why)), Tags: []string{"type-unknown-to-schema"}, NT: true})
+	}
+}
+
 func genC17(out *Out, r *Rng, tier string, n int, shard int) {
 	// complete enumeration: every assignment of the four slots to {unassigned} + pool (6^4 = 1296), split over shards
 	nsh := 8
@@ -327,6 +708,17 @@ func genC17(out *Out, r *Rng, tier string, n int, shard int) {
 			emitC17(out, r, attr, []string{"special"})
 		}
 		emitFacade(out, r)
+	}
+	// several types per credential / spellings unknown to a schema (after everything else: the cases above keep their random stream)
+	k := 4
+	if tier == "thorough" {
+		k = 12
+	}
+	if n > 1 {
+		k *= n
+	}
+	for i := 0; i < k; i++ {
+		emitC17Types(out, r, tier)
 	}
 }
 
